@@ -1808,6 +1808,20 @@ def builtin_corpus(prop):
                     "rounds": [{"fails": [], "crash": None, "reset": True, "req": r1},
                                {"fails": [], "crash": None, "reset": False, "delete": ["d0.dir", "f0", "f1"], "req": r2},
                                {"fails": [], "crash": None, "reset": False, "req": r2}]})
+    # seeded change C04/r6m1: fetch direction with ONE shared source index and TWO destinations: the
+    # first EXPANDED transfer (shallow=False) makes the source status index d0.dir; the second
+    # transfer of the same directory goes into ANOTHER, empty destination (reset) with the same
+    # source index: the directory must still be expanded on the source side, its files are new
+    # and go up before the directory object.  Third round: the retry on that second destination.
+    for cls, six in (("local", True), ("base", True), ("local", "noop")):
+        for reqx in (["d0.dir"], ["d0.dir", "d1.dir"]):
+            out.append({"prop": prop, "files": f, "dirs": d, "src": allsrc, "cache": None, "dst": {},
+                        "req": reqx, "shallow": False, "verify": False, "src_cls": "base", "dst_cls": cls,
+                        "dix": False, "six": six,
+                        "rounds": [{"fails": [], "crash": None, "reset": True},
+                                   {"fails": [], "crash": None, "reset": True},
+                                   {"fails": [], "crash": None, "reset": False},
+                                   {"fails": ["f1"], "crash": None, "reset": True}]})
     # seeded change C11/r3m1: a real hash State on the destination must not vouch for an object
     # before it was verified.  f0's source copy is corrupt (mode 0o444), verify=True
     for cls in ("local", "base"):
